@@ -1402,7 +1402,12 @@ def correspond(ctx):
                 "beside them, outside, +-inf, NaN; compared after every call (contents, raw counts, errors, scaling, "
                 "centres, widths), bit-exact until the first make_density; error-path calls outside the model (bad element "
                 "at the front of the data, wrong types, unknown keywords, warnings-as-errors) mixed in: they have to raise "
-                "and leave the object in the model's state; every call in one of six equivalent call forms; non-trivial = some value bit-equal to an "
+                "and leave the object in the model's state; every call in one of six equivalent call forms; binnings, values "
+                "and weights in integer / single-precision / mixed / bool / numpy-scalar representations, weights also as "
+                "tuples / object arrays where the code takes them like a list (probed once per run; refused or ignored "
+                "sequence kinds must change nothing); the history goes on with copy.copy / copy.deepcopy / pickle round trips "
+                "of the object; arguments handed in as copies; one call in three under np.seterr(all='warn'), terse print "
+                "options, advanced random states (to be left as found); non-trivial = some value bit-equal to an "
                 "edge and at least one weight list or scale call; distinct by canonical input")
     ctx.assumptions.append("np.digitize(v, edges) = #{e in edges | e <= v} for increasing edges; np.linspace gives "
                            "increasing edges (checked on every generated binning); np.sqrt = IEEE sqrt")
